@@ -108,7 +108,7 @@ def jobs(tier, seed, excluded=()):
     rng = random.Random(seed)
     dom = Dom(int_max=9, int_cands=[], str_mode="cand", str_cands=["p", "q r", ""], hex_cands=["0x1f"], float_cands=["0.25"])
     odom = Dom(int_max=9, int_cands=["-3"], str_mode="cand", str_cands=["p", "zz", ""], hex_cands=["0x1f", "0x2"], float_cands=["0.25", "5"])
-    cfgs = [("T01", None, False), ("T13b", None, True), ("T05", None, False), ("E_sync_empty", None, False), ("T01", "T01:mut:addopt", False), ("T01", "T01:mut:rmopt", False)]
+    cfgs = [("T01", None, False), ("T13b", None, True), ("T05", None, False), ("E_sync_empty", None, False), ("T01", "T01:mut:addopt", False), ("T01", "T01:mut:rmopt", False), ("T01", "T01:mut:rmdef", False)]
     if tier == "quick":
         nfree, npairs, maxcrash, tmo = 4, 3, 9, 120
     else:
